@@ -64,6 +64,8 @@ CATALOGUE = {
     21: ("range with a non-numeric parameter", False),
     22: ("parameters cell without '='", False),
     23: ("malformed reference '${n0' in a label", True),
+    24: ("reference to a name carried by 2-5 questions in different groups (ambiguous)", False),
+    25: ("save_to on a question in a group nested inside a repeat", True),
 }
 
 
@@ -156,6 +158,24 @@ def mutate(m: int, site: int, blanks: int, x: str):
     elif m == 23:
         rows[qi]["label"] = "${n0"
         row = qi
+    elif m == 24:
+        k = 2 + site % 4
+        for i in range(k):
+            rows += [{"type": "begin group", "name": f"gg{i}", "label": "G"}, {"type": "text", "name": "dup", "label": "D"}, {"type": "end group"}]
+        rows.append({"type": "text", "name": "ref", "label": "R", "relevant": "${dup} = 1"})
+        subject = "dup"
+    elif m == 25:
+        depth = 1 + site % 2
+        new = [{"type": "begin repeat", "name": "rr", "label": "R"}]
+        for i in range(depth):
+            new.append({"type": "begin group", "name": f"gg{i}", "label": "G"})
+        new.append({"type": "text", "name": "sv", "label": "S", "save_to": x})
+        for i in range(depth):
+            new.append({"type": "end group"})
+        new.append({"type": "end repeat"})
+        rows += new
+        wb["entities"] = [{"dataset": "ds", "label": "a"}]
+        row = len(rows) - 2 - depth
     rows = [{} for _ in range(blanks)] + rows
     wb["survey"] = rows
     wb["choices"] = choices
@@ -203,7 +223,7 @@ specialise(
     "C17",
     "a.catalogue",
     c17_cat_sym,
-    {"m": [0, 1, 2, 3, 5, 6, 7, 8, 9, 10, 11, 12, 13, 14, 15, 16, 17, 18, 19, 20, 21, 22]},
+    {"m": [0, 1, 2, 3, 5, 6, 7, 8, 9, 10, 11, 12, 13, 14, 15, 16, 17, 18, 19, 20, 21, 22, 24, 25]},
     timeout=300,
     kernel=K,
     shims=("S1", "S2", "S3", "S4"),
